@@ -148,7 +148,7 @@ CLAIMS = {
           'plans of C03 (every kind), and buffer-sized 837 documents with the terminators shifted over 24/48 alignments - are rendered under 8/14 encodings (4 delimiter triples incl. newline-terminated '
           'and binary separators x line-break conventions) and validated by the real x12n_document; per document TLC (T_Delims) requires verdict, error set (level, code, segment position, element and '
           'component position, offending value) and acknowledgement body to equal those of the reference encoding.',
-  'note': 'Encodings include control-character separators, '^' as component separator (5010 documents), '.' and '-' (skipped for documents whose data holds them). Besides map-level single faults, RawPiece documents carry pieces the tokenizer must treat alike under every encoding (separators only, blanks only, an id followed by separators only, leading blank, trailing separators). Delimiters never occur in the data (excluded by the property); offending values and acknowledgement elements are compared after mapping delimiter characters to canonical ones; '
+  'note': 'Encodings include control-character separators, the caret as component separator (5010 documents), full stop and hyphen (skipped for documents whose data holds them). Besides map-level single faults, RawPiece documents carry pieces the tokenizer must treat alike under every encoding (separators only, blanks only, an id followed by separators only, leading blank, trailing separators). Delimiters never occur in the data (excluded by the property); offending values and acknowledgement elements are compared after mapping delimiter characters to canonical ones; '
           'the binary triple uses ">" as component separator (a control character in ISA16 is itself rejected). Trusted: TLC, concretiser/renderer, recorders.',
   'technique': 'TLA+ model checking (TLC) of Oracle o Encode = id + metamorphic replay of TLC-generated documents under all encodings + TLC trace validation of the observations',
  },
